@@ -25,6 +25,7 @@ pub mod c19;
 pub mod c20;
 pub mod decgen;
 pub mod impls;
+pub mod realcodes;
 
 pub fn property(id: &str, ctx: &Ctx) -> Option<Property> {
     let _ = ctx;
